@@ -67,6 +67,11 @@ type Features struct {
 	DDLExtras bool
 	// Alter: ALTER TABLE with one operation; AlterQualified: on a schema-qualified table
 	Alter, AlterQualified bool
+	// MySQL: the MySQL forms the compatibility document lists as fully supported - REPLACE INTO,
+	// INSERT ... ON DUPLICATE KEY UPDATE, MATCH (..) AGAINST (..), SHOW, DESCRIBE, AUTO_INCREMENT,
+	// table options (ENGINE= ...). Partitions: CREATE TABLE ... PARTITION BY RANGE/LIST/HASH with
+	// partition definitions.
+	MySQL, Partitions bool
 	// Flat: no nested query anywhere and no statement-starting keyword after the
 	// first token (SELECT/INSERT ... VALUES/DELETE only): the sub-grammar C12 quantifies over
 	Flat bool
@@ -81,6 +86,7 @@ func FullFeatures() Features {
 	f := AllFeatures()
 	f.DDL, f.Merge, f.QuotedDDLNames, f.IndexNulls, f.DDLExtras = true, true, true, true, true
 	f.Alter, f.AlterQualified = true, true
+	f.MySQL, f.Partitions = true, true
 	return f
 }
 
